@@ -4,7 +4,7 @@
    offsets over all integers. *)
 From Coq Require Import Reals QArith Qreals Qcanon.
 From Coquelicot Require Import Complex.
-From LV Require Import Lib.Cis Model.Dft Model.DftOut Proofs.DftP Proofs.DftOutP Proofs.DftInvP.
+From LV Require Import Lib.Instances Lib.Cis Model.Dft Model.DftOut Model.DftApi Proofs.DftP Proofs.DftOutP Proofs.DftInvP Proofs.DftApiP Proofs.DftApiInvP.
 
 (* every output sample (u, v) carries the defining sum over input samples, both planes' origins at
    index floor(n/2), times sqrt|alpha_r alpha_c| exactly when unitary *)
@@ -102,6 +102,94 @@ Theorem C01_parseval_full_period_inverse :
 Proof. exact (fun sq H F shr shc Hm Hn =>
                 parseval_period_inv sq F (nr F) (nc F) shr shc H Hm Hn (Z.le_refl _) (Z.le_refl _)). Qed.
 Print Assumptions C01_parseval_full_period_inverse.
+
+(* ---- the public entry points (Model/DftApi.v): argument forms, defaults, refusals, glue to the kernel ----
+   [bcast2] is np.broadcast_to(., (2,)) on a scalar / 0-d value, a 1-d sequence or a >= 2-d array;
+   [args_ok] = every argument has an acceptable form and the input is 2-d; [req_shape] = the requested shape
+   (the input's own shape when shape is None); a buffer is [out_accept]-able (complex128, C-contiguous, right
+   shape), [out_notype] (its dtype cannot hold complex) or [out_badvalue] (np.dot refuses it). *)
+
+(* complete verdict of a dft2 call: an argument of the wrong form or an input that is not 2-d is refused with
+   ValueError whatever else was passed; otherwise the result is the kernel [dft2] on the expanded arguments with
+   the output lengths max(0, M), max(0, N) (np.arange), unless the buffer is refused - TypeError when its dtype cannot
+   hold complex values (whatever its shape), ValueError when np.dot cannot write into it; nothing else can happen *)
+Theorem C01_dft2_call_verdict :
+  forall (S : Scalar) (sq : Qc -> S) (f : input S) (alpha : argform Qc) (shape : option (argform Z))
+         (shift : argform Qc) (offset : argform Z) (unitary : bool) (out : option outbuf),
+  (args_ok f alpha shape shift offset = false ->
+     dft2_api sq f alpha shape shift offset unitary out = Err ValueError)
+  /\
+  (args_ok f alpha shape shift offset = true ->
+     exists g a sh st off, f = In2 g /\ bcast2 alpha = Ok a /\ req_shape g shape = Ok sh /\ bcast2 shift = Ok st
+       /\ bcast2 offset = Ok off /\
+       let M := Z.max 0 (fst sh) in let N := Z.max 0 (snd sh) in
+       (out_accept out M N ->
+          dft2_api sq f alpha shape shift offset unitary out
+          = Ok (dft2 sq g (fst a) (snd a) M N (fst st) (snd st) (fst off) (snd off) unitary))
+       /\ (out_notype out -> dft2_api sq f alpha shape shift offset unitary out = Err TypeError)
+       /\ (out_badvalue out M N -> dft2_api sq f alpha shape shift offset unitary out = Err ValueError)
+       /\ (out_accept out M N \/ out_notype out \/ out_badvalue out M N)).
+Proof. exact dft2_api_verdict. Qed.
+Print Assumptions C01_dft2_call_verdict.
+
+(* a call depends on an argument only through its broadcast to two values: alpha, a one-element [alpha] and
+   [alpha, alpha] are the same call (likewise shape, shift, offset) *)
+Theorem C01_argument_forms_agree :
+  forall (S : Scalar) (sq : Qc -> S) (f : input S) alpha alpha' shape shape' shift shift' offset offset' unitary out,
+  bcast2 alpha = bcast2 alpha' -> bcast2 shift = bcast2 shift' -> bcast2 offset = bcast2 offset' ->
+  (forall g : arr S, req_shape g shape = req_shape g shape') ->
+  dft2_api sq f alpha shape shift offset unitary out = dft2_api sq f alpha' shape' shift' offset' unitary out.
+Proof. exact dft2_api_forms. Qed.
+Print Assumptions C01_argument_forms_agree.
+
+(* out= at the entry point: whenever a call with a buffer succeeds, the call without one returns the same array *)
+Theorem C01_call_out_transparent :
+  forall (S : Scalar) (sq : Qc -> S) (f : input S) alpha shape shift offset unitary (o : outbuf) (F : arr S),
+  dft2_api sq f alpha shape shift offset unitary (Some o) = Ok F ->
+  dft2_api sq f alpha shape shift offset unitary None = Ok F.
+Proof. exact dft2_api_out_transparent. Qed.
+Print Assumptions C01_call_out_transparent.
+
+(* the inverse entry point is refused exactly when dft2 refuses conj(F) with the same arguments (and zero offset),
+   with the same exception; an accepted call returns the kernel [idft2] on the expanded arguments *)
+Theorem C01_idft2_call_verdict :
+  forall (S : Scalar) (sq : Qc -> S) (F : input S) (alpha : argform Qc) (shape : option (argform Z))
+         (shift : argform Qc) (unitary : bool) (out : option outbuf),
+  (forall e, idft2_api sq F alpha shape shift unitary out = Err e <->
+             dft2_api sq (input_conj F) alpha shape shift (FSeq [0; 0]) unitary out = Err e)
+  /\ (forall R, idft2_api sq F alpha shape shift unitary out = Ok R ->
+        exists g ar ac M N shr shc, F = In2 g /\ bcast2 alpha = Ok (ar, ac) /\ req_shape g shape = Ok (M, N)
+          /\ bcast2 shift = Ok (shr, shc) /\ out_accept out (Z.max 0 M) (Z.max 0 N)
+          /\ R = idft2 sq g ar ac (Z.max 0 M) (Z.max 0 N) shr shc unitary).
+Proof. exact idft2_api_verdict. Qed.
+Print Assumptions C01_idft2_call_verdict.
+
+(* the documented round trip with every optional argument at its default (shape=None, no shift, no offset,
+   out=None), both flags, over the complex numbers *)
+Theorem C01_roundtrip_through_entry_points :
+  forall (sq : Qc -> C), (forall q : Qc, (0 <= q)%Qc -> Cmult (sq q) (sq q) = RtoC (Q2R q)) ->
+  forall (f : arr CS) (unitary : bool), 0 < nr f -> 0 < nc f ->
+  let alpha := FSeq [(/ zq (nr f))%Qc; (/ zq (nc f))%Qc] in
+  exists F R,
+    dft2_api (S:=CS) sq (In2 f) alpha None (FSeq [0%Qc; 0%Qc]) (FSeq [0; 0]) unitary None = Ok F
+    /\ nr F = nr f /\ nc F = nc f
+    /\ idft2_api (S:=CS) sq (In2 F) alpha None (FSeq [0%Qc; 0%Qc]) unitary None = Ok R
+    /\ forall x y, 0 <= x < nr f -> 0 <= y < nc f -> get R x y = get f x y.
+Proof. exact (fun sq H f un => api_roundtrip_defaults sq f un H). Qed.
+Print Assumptions C01_roundtrip_through_entry_points.
+
+(* non-vacuity of the verdict theorem: each of the five outcomes is reached by a concrete call (integers as scalars) *)
+Example C01_call_verdict_nonvacuous :
+  let f : input ZS := In2 (mkArr (S:=ZS) 2 3 (fun x y => x + 2 * y)) in
+  let sq := fun _ : Qc => 1 in
+  (exists F, dft2_api (S:=ZS) sq f (FScalar 1%Qc) (Some (FScalar 4)) (FSeq [0%Qc]) (FSeq [1; -2]) true
+                      (Some (mkOut OComplex128 true 4 4)) = Ok F /\ nr F = 4 /\ nc F = 4)
+  /\ dft2_api (S:=ZS) sq f (FSeq [1%Qc; 1%Qc; 1%Qc]) None (FScalar 0%Qc) (FScalar 0) true None = Err ValueError
+  /\ dft2_api (S:=ZS) sq (InRank 1) (FScalar 1%Qc) None (FScalar 0%Qc) (FScalar 0) true None = Err ValueError
+  /\ dft2_api (S:=ZS) sq f (FScalar 1%Qc) None (FScalar 0%Qc) (FScalar 0) true (Some (mkOut ONoComplex true 9 9)) = Err TypeError
+  /\ dft2_api (S:=ZS) sq f (FScalar 1%Qc) None (FScalar 0%Qc) (FScalar 0) true (Some (mkOut OOther true 2 3)) = Err ValueError
+  /\ dft2_api (S:=ZS) sq f (FScalar 1%Qc) None (FScalar 0%Qc) (FScalar 0) true (Some (mkOut OComplex128 false 2 3)) = Err ValueError.
+Proof. cbn. repeat split; try reflexivity. eexists. split; [reflexivity|]. split; reflexivity. Qed.
 
 (* the hypotheses are satisfiable by a non-trivial instance: the principal square root and a 2x3 array *)
 Example C01_nonvacuous :
